@@ -1,9 +1,9 @@
-\* behaviour generation (tlc -simulate) for trie2, faithful to the code as it is
+\* behaviour generation (tlc -simulate) for trie2 (registered default: the repaired code, FixValueDeletePath = TRUE)
 CONSTANTS
   H = 5
   MaxV = 3
   MaxSteps = 1000000
-  FixValueDeletePath = FALSE
+  FixValueDeletePath = TRUE
   Bug = "none"
   MBTLen = 30
 INIT MBTInit
